@@ -168,7 +168,7 @@ PROPS = {
         "design_ref": "DESIGN.md section 5, C12",
     },
     "C17": {
-        "modules": ["Qvnt.Props.C17", "Qvnt.Props.Code.C18"],
+        "modules": ["Qvnt.Props.C17", "Qvnt.Props.Code.C18", "Qvnt.Props.Code.C17"],
         "tie": [tie3(r"int_process_(apply_gate|gate|if|node|nodes|node_apply)_eq|int_(ast_changes|add_ast|new)_eq|processNode_inv|processApply_macros|foldlM_process|regsOf_eq|argsOf_eq|macro_process(_nested)?_eq|macro_argument_name_eq|macro_new_eq", r"UNSUPPORTED (mod\.rs: qasm/int/mod\.rs::(process_(apply_gate|gate|if|node|nodes)|ast_changes|add_ast|new):|macros\.rs)"), tiec(r"sym_\w+"), tie2(r"extop_(push|append)_eq|sym_(finish|step|reset|new|get_class|get_probabilities)_eq|finish_as_foldlM", r"UNSUPPORTED (ext_op\.rs|sym\.rs)", creg=True), tie3(r"int_(append|prepend)_int_eq", r"UNSUPPORTED mod\.rs: qasm/int/mod\.rs::(append_int|prepend_int):")],
         "suites": [suite("c17", dict(count=300), dict(count=10000))],
         "mismatch_tags": INT_STRUCT,
